@@ -258,10 +258,89 @@ package datas
 //@     invariant 0 <= verif_rangeidx() && verif_rangeidx() <= len(opts.Parents)
 //@     invariant !found && forall k in 0..verif_rangeidx(): opts.Parents[k] != curr
 
-//@ func newCommitForValue
-//@   property C20
-//@   trusted builds the commit value from the options it is given (heights: C18)
+// ---- commit metadata describes the commit graph (C18)
+
+//@ func verif_heightof
+//@   pure
+//@   opaque
+
+//@ extern (*github.com/dolthub/dolt/go/gen/fb/serial.Commit).Height as verif_x_Commit_Height
 //@   modifies nothing
+//@   ensures h == verif_heightof(c)
+//@   ghost_set verif_ghost.lastHeight = h
+
+//@ extern github.com/dolthub/dolt/go/gen/fb/serial.TryGetRootAsCommit as verif_x_TryGetRootAsCommit
+//@   modifies nothing
+//@   ensures err == nil ==> c != nil
+//@   ghost_set verif_ghost.cParsedOK = (err == nil)
+
+// commit_flatbuffer: the height written into the commit and returned is one more than the highest parent height
+// (one for a commit without parents)
+//@ func commit_flatbuffer
+//@   property C18
+//@   at call CommitAddHeight: assert arg1:uint64 == maxheight+1
+//@   ensures  forall k in 0..len(heights): heights[k] <= result1-1
+//@   ensures  result1 == 1 || exists k in 0..len(heights): heights[k] == result1-1
+//@   ensures  len(heights) == 0 ==> result1 == 1
+//@   ghost_set verif_ghost.cfHeight = result1
+//@   loop 2
+//@     invariant 0 <= verif_rangeidx() && verif_rangeidx() <= len(heights)
+//@     invariant forall k in 0..verif_rangeidx(): heights[k] <= maxheight
+//@     invariant maxheight == 0 || exists k in 0..verif_rangeidx(): heights[k] == maxheight
+
+// newCommitForValue: the height list handed to commit_flatbuffer holds the stored height of every parent, in order; the
+// closure is built from the same parents and parent addresses; the Commit returned carries the height that was written
+//@ func newCommitForValue
+//@   property C18
+//@   at call commit_flatbuffer: assert len(heights) == len(opts.Parents) && verif_sameslice(arg2:[]uint64, heights)
+//@   at call Height: assert verif_ghost.cParsedOK
+//@   at call writeFbCommitParentClosure: assert len(parents) == len(opts.Parents) && verif_sameslice(arg4:[]*serial.Commit, parents) && verif_sameslice(arg5:[]hash.Hash, opts.Parents)
+//@   ensures  result1 == nil ==> result0 != nil && result0.height == verif_ghost.cfHeight
+//@   also_modifies verif_ghost.cfHeight, verif_ghost.cEditors, verif_ghost.cDiffs, verif_ghost.cAdds, verif_ghost.lastHeight, verif_ghost.cParsedOK
+//@   loop 1
+//@     invariant 0 <= verif_rangeidx() && verif_rangeidx() <= len(heights) && len(heights) == len(opts.Parents) && len(parents) == len(heights)
+
+//@ extern (github.com/dolthub/dolt/go/store/prolly.CommitClosure).Editor as verif_x_cc_Editor
+//@   modifies nothing
+//@   ghost_set verif_ghost.cEditors = verif_ghost.cEditors + 1
+
+//@ extern github.com/dolthub/dolt/go/store/prolly.DiffCommitClosures as verif_x_DiffCommitClosures
+//@   modifies nothing
+//@   ghost_set verif_ghost.cDiffs = verif_ghost.cDiffs + 1
+
+//@ extern (github.com/dolthub/dolt/go/store/prolly.CommitClosureEditor).Add as verif_x_cce_Add
+//@   modifies nothing
+//@   ghost_set verif_ghost.cAdds = verif_ghost.cAdds + 1
+
+// writeFbCommitParentClosure: ONE editor (started from the first parent's closure) receives the closure of every other
+// parent and then one key (stored height, address) for every parent, and is flushed once
+//@ func writeFbCommitParentClosure
+//@   property C18
+//@   requires len(parents) == len(parentAddrs)
+//@   at call NewCommitClosureKey: assert arg1:uint64 == verif_ghost.lastHeight && arg2:hash.Hash == parentAddrs[i]
+//@   ensures  result1 == nil && len(parents) > 0 ==> verif_ghost.cEditors == old(verif_ghost.cEditors) + 1
+//@   ensures  result1 == nil && len(parents) > 0 ==> verif_ghost.cDiffs == old(verif_ghost.cDiffs) + len(parents) - 1
+//@   ensures  result1 == nil && len(parents) > 0 ==> verif_ghost.cAdds == old(verif_ghost.cAdds) + len(parents)
+//@   also_modifies verif_ghost.cEditors, verif_ghost.cDiffs, verif_ghost.cAdds, verif_ghost.lastHeight
+//@   loop 1
+//@     invariant 0 <= verif_rangeidx() && verif_rangeidx() <= len(parents) && len(addrs) == len(parents)
+//@   loop 2
+//@     invariant 0 <= verif_rangeidx() && verif_rangeidx() <= len(addrs) && len(closures) == len(parents) && len(addrs) == len(parents)
+//@     invariant verif_ghost.cEditors == old(verif_ghost.cEditors) && verif_ghost.cDiffs == old(verif_ghost.cDiffs) && verif_ghost.cAdds == old(verif_ghost.cAdds)
+//@   loop 3
+//@     invariant 1 <= i && i <= len(closures) && len(closures) == len(parents)
+//@     invariant verif_ghost.cEditors == old(verif_ghost.cEditors) + 1 && verif_ghost.cDiffs == old(verif_ghost.cDiffs) + i - 1 && verif_ghost.cAdds == old(verif_ghost.cAdds)
+//@   loop 4
+//@     invariant 0 <= i && i <= len(parents) && len(closures) == len(parents)
+//@     invariant verif_ghost.cEditors == old(verif_ghost.cEditors) + 1 && verif_ghost.cDiffs == old(verif_ghost.cDiffs) + len(parents) - 1 && verif_ghost.cAdds == old(verif_ghost.cAdds) + i
+
+// the diff callback adds exactly the entries the other parent's closure has and the first one lacks
+//@ func writeFbCommitParentClosure$1
+//@   property C18
+//@   at call Add: assert diff.Type == tree.AddedDiff
+//@   ensures  diff.Type != tree.AddedDiff ==> result == nil && verif_ghost.cAdds == old(verif_ghost.cAdds)
+//@   ensures  diff.Type == tree.AddedDiff ==> verif_ghost.cAdds == old(verif_ghost.cAdds) + 1
+//@   also_modifies verif_ghost.cAdds
 
 // BuildNewCommit: unless forced, the commit that is built names the dataset's current head as a parent (ordinary
 // commit) or as the commit it amends
